@@ -423,8 +423,9 @@ func TestC11(t *testing.T) {
 				c.Bad = []string{"position fen QQQQQQQQ/QQ5k/PPPPPPPP/8/8/8/8/K7 w - - 0 1", "position fen kk6/8/8/8/8/8/8/K7 w - - 0 1", "position fen 8/8/8/8/8/8/8/K7 w - - 0 1", "position fen k7/pppppppp/p7/8/8/8/8/K7 w - - 0 1"}[gen.Draw(t, 0, 3, "count")]
 			case 5:
 				c.Bad = "position"
-			case 6:
-				c.Bad = "position fen"
+			case 6: // every field count below six (the command documents "not enough arguments")
+				fs := strings.Fields(p.FEN())
+				c.Bad = strings.TrimSpace("position fen " + strings.Join(fs[:gen.Draw(t, 0, 5, "fields")], " "))
 			}
 			if rec.WantSample("uci") {
 				rec.Sample("uci", c)
